@@ -54,6 +54,7 @@ func (c *Ctx) runStoreGen(g *StoreGen, per int, purpose string) {
 				for i := range j.beh {
 					eb, _ := json.Marshal(j.beh[i].Ev)
 					c.addDistinct(prev + "|" + string(eb))
+					c.addExtraCount("replayed op:"+j.beh[i].Ev.Op, 1)
 					pb, _ := json.Marshal(j.beh[i].Pred)
 					prev = string(pb)
 				}
